@@ -660,10 +660,15 @@ Definition rd_gblock : rd gblock :=
   | None => None
   end.
 
+(* the first number is a flag word for the harness (scenario class); it is not part of the trace *)
 Definition decode_trace (zs : list Z) : option trace :=
-  match rd_counted rd_gblock zs with
-  | Some (tr, []) => Some tr
-  | _ => None
+  match zs with
+  | [] => None
+  | _flags :: zs' =>
+    match rd_counted rd_gblock zs' with
+    | Some (tr, []) => Some tr
+    | _ => None
+    end
   end.
 
 (* ---------- output ---------- *)
@@ -689,15 +694,22 @@ Definition str_reject_check : bytes := str [114;101;106;101;99;116;58;99;104;101
 
 Definition run_trace_case (c : case) : bytes :=
   match decode_trace (c_zargs c) with
+  | None => str_reject
+  | Some tr =>
+    match accept tr with
+    | Some s => render_summary s
+    | None => str_reject
+    end
+  end.
+
+(* which stage rejects (diagnostics only) *)
+Definition reject_stage (zs : list Z) : bytes :=
+  match decode_trace zs with
   | None => str_reject_decode
   | Some tr =>
     match synth tr with
     | None => str_reject_synth
-    | Some es =>
-      match accept_with tr es with
-      | Some s => render_summary s
-      | None => str_reject_check
-      end
+    | Some es => match accept_with tr es with Some _ => str_ok | None => str_reject_check end
     end
   end.
 
